@@ -112,7 +112,7 @@ pub fn gen(s: &mut Src) -> GenDoc {
         _ => Some(dict(vec![("Type", name("ExtGState")), ("Font", arr(vec![rf(*fonts.last().unwrap()), Obj::Int(7)]))])),
     };
     // ---------------------------------------------------------------- resource kinds beyond fonts / XObjects / ExtGState
-    let extra = s.alt(5, &["no-extra-resource", "named-colorspace", "pattern-fill", "shading-op", "properties-name", "inline-image", "pattern-fill-own-resources", "separation-colorspace-first-page", "unreadable-xobject-first-page"]);
+    let extra = s.alt(5, &["no-extra-resource", "named-colorspace", "pattern-fill", "shading-op", "properties-name", "inline-image", "pattern-fill-own-resources", "separation-colorspace-first-page", "unreadable-xobject-first-page", "uncoloured-pattern-fill"]);
     let mut extra_res: Vec<(&str, Obj)> = Vec::new();
     let mut extra_ops = String::new();
     let mut bad_xo: Option<u32> = None;
@@ -143,6 +143,14 @@ pub fn gen(s: &mut Src) -> GenDoc {
             // with an error value; the pages imported successfully alongside it must still give a document that can be saved
             let bad = g.add(stream(vec![("Type", name("XObject")), ("BBox", ints(&[0, 0, 1, 1]))], b"0 0 1 1 re f"));
             bad_xo = Some(bad); extra_ops.push_str("/XBAD Do ");
+        }
+        9 => {
+            // an uncoloured tiling pattern (PaintType 2): the colour components precede the pattern name in the scn operands
+            let pres = g.add(dict(vec![]));
+            let p = g.add(stream(vec![("Type", name("Pattern")), ("PatternType", Obj::Int(1)), ("PaintType", Obj::Int(2)), ("TilingType", Obj::Int(1)), ("BBox", ints(&[0, 0, 4, 4])), ("XStep", Obj::Int(4)), ("YStep", Obj::Int(4)), ("Resources", rf(pres))], b"0 0 2 2 re f"));
+            extra_res.push(("Pattern", dict(vec![("P0", rf(p))])));
+            extra_res.push(("ColorSpace", dict(vec![("PCS", arr(vec![name("Pattern"), name("DeviceRGB")]))])));
+            extra_ops.push_str("/PCS cs 0.25 0.5 0.75 /P0 scn 0 0 3 3 re f ");
         }
         3 => { extra_res.push(("Shading", dict(vec![("S0", dict(vec![("ShadingType", Obj::Int(2)), ("ColorSpace", name("DeviceRGB")), ("Coords", ints(&[0, 0, 1, 1])),
                 ("Function", dict(vec![("FunctionType", Obj::Int(2)), ("Domain", ints(&[0, 1])), ("C0", ints(&[0, 0, 0])), ("C1", ints(&[1, 1, 1])), ("N", Obj::Int(1))]))]))]))); extra_ops.push_str("/S0 sh "); }
